@@ -31,7 +31,7 @@ def program_side(rep, tier):
     done = 0
     for stmt in ("d = h1 (hash read)", "h1 = c + 1 (hash write)", "table[5,7] = (d, 9) (Dict update)",
                  "c = table[5,7].v2 (Dict lookup)", "h2 = c (narrow local into a 64-bit cell)",
-                 "h2 = g (signed narrow local into a 64-bit cell)") + tuple(F.C09_ONLY):
+                 "h2 = g (signed narrow local into a 64-bit cell)") + tuple(F.C09_PROGRAMS):
         info = F.build(stmt)
         rep.function(f"EBPF program `{stmt}`: assemble() bytes", info["code"].hex())
         ks, vs = info["dict_sizes"]
